@@ -134,6 +134,9 @@ class TextEngine:
                 out.append(rng.choice([" ", " ", "  ", "\t", "\n", "   "], "ws"))
             else:
                 out.append(rng.choice(ALPHABET, "ch"))
+        if self.prop == "C05" and rng.chance(0.004, "longrun"):
+            # a very long run of blanks (text:c beyond 16 bits), rarely: the encoding has no length limit
+            out.insert(rng.randint(0, len(out), "longrun_at"), " " * rng.choice([65536, 65540, 70001], "longrun_n"))
         return "".join(out)
 
     def _sentence(self, rng):
@@ -337,7 +340,7 @@ class TextEngine:
             return {"op": "restart"}
         what = rng.weighted([("set_span", 5), ("set_link", 3), ("set_bookmark", 4), ("set_reference_mark", 3), ("insert_note", 2), ("insert_annotation", 2),
                              ("remove_spans", 1.5), ("remove_links", 1), ("remove_one", 2), ("delete_mark", 2), ("delete_inline", 1.5), ("append", 1),
-                             ("delete_note", 1.5), ("reinsert_note", 2 if self.deleted_notes else 0), ("move_refmark_end", 2)], "what")
+                             ("delete_note", 1.5), ("reinsert_note", 2 if self.deleted_notes else 0), ("move_refmark_end", 2), ("insert_copy", 1.5)], "what")
         op = {"op": "markup", "what": what, "n": n}
 
         def regex():
@@ -385,6 +388,10 @@ class TextEngine:
         elif what == "reinsert_note":
             op["idx"] = rng.randint(0, 3, "nidx")
             op["where"] = rng.choice(["start", "in_span"], "nwhere")
+        elif what == "insert_copy":
+            op["idx"] = rng.randint(0, 3, "cidx")
+            op["kind"] = rng.choice(["note", "annotation"], "ckind")
+            op["regex"] = regex()
         elif what == "move_refmark_end":
             op["idx"] = rng.randint(0, 3, "ridx")
             op["mode"] = rng.choice(["after", "before"], "rmode")
@@ -691,6 +698,26 @@ class TextEngine:
             return []
         self.n_marks += 1
         return self._text_kept("reinsert_note", feats, T)
+
+    def _c09_insert_copy(self, op, el, root, pre_xml, T, nodes, concat, noted, feats):
+        """a COPY (Element.clone) of a note / annotation that sits in the middle of the text is inserted elsewhere
+        (insert_note(note_element=...) / insert_annotation(annotation_element=...)): the text stays"""
+        src = el.get_elements("descendant::text:note" if op["kind"] == "note" else "descendant::office:annotation")
+        if not src:
+            return []
+        copy = src[op["idx"] % len(src)].clone
+        feats = feats + ["copied_element:" + op["kind"]] + (["copy_carries_tail"] if lx(copy).tail else [])
+        try:
+            if op["kind"] == "note":
+                el.insert_note(note_element=copy, after=op["regex"])
+            else:
+                el.insert_annotation(annotation_element=copy, after=op["regex"])
+        except Exception as e:
+            if not self._unchanged(root, pre_xml):
+                return [Violation("C09", "raised-after-partial-modification", "insert_copy", feats, type(e).__name__, f"{type(e).__name__}: {e}")]
+            return []
+        self.n_marks += 1
+        return self._text_kept("insert_copy", feats, T)
 
     def _c09_move_refmark_end(self, op, el, root, pre_xml, T, nodes, concat, noted, feats):
         """set_reference_mark_end on an existing range: its end mark moves, the text stays"""
